@@ -119,7 +119,7 @@ class HTTPReader:
             http_body = cls._read_dechunk(http_message.rfile)
         else:
             cl_string = http_message.headers.get('content-length')
-            if cl_string:
+            if cl_string is not None:  # an empty value is not a valid length (int raises ValueError)
                 try:
                     content_length = int(cl_string)
                     if content_length < 0:
